@@ -18,6 +18,14 @@ PROPS = {
         text='Verus proves the real bodies of set_pop, quant, restrict, apply_quant, substitute (simple BDD) against iterated-cofactor / override / simultaneous-substitution semantics for all diagrams and variable sets',
         note='manager + apply-cache contracts assumed (prelude); partial correctness; sequential recursor; see evidence.assumptions',
     ),
+    'C13': dict(
+        verus=['bdd_simple'],
+        kani=[],
+        level='proof',
+        design_ref='6/C13',
+        text='Verus proves the real pick_cube_dd / pick_cube_dd_set recursions against pick_ok (one node per level, never into a false child, polarity of the literal set followed where both children are satisfiable; choice closure callable only on such nodes with their own level); cube-ness and implication follow by lemma_pick_ok_props',
+        note='manager contract assumed (prelude); uniform picking (probabilities) not covered; pick_cube (Vec<OptBool> output) covered only where listed in evidence',
+    ),
     'C10': dict(
         verus=[],
         kani=['mtbdd_terminal'],
